@@ -223,6 +223,9 @@ class GeoBoxBase:
     @property
     def boundingbox(self) -> BoundingBox:
         """GeoBox bounding box in the native CRS."""
+        if not self.linear:
+            # affine is in the pixel plane only, go via footprint
+            return self.extent.boundingbox
         return BoundingBox.from_transform(self._shape, self._affine, crs=self._crs)
 
     def _reproject_resolution(self, npoints: int = 100):
